@@ -625,6 +625,31 @@ def all_orders(xs, limit=None, rng=None):
 # ------------------------------------------------------------------------------------------------
 # multi-task programs and generic calls (backward / mtl_backward) — impl, model, oracle
 # ------------------------------------------------------------------------------------------------
+def entangled(prog, feats):
+    """True when the features do not separate cleanly at the level of autograd NODES: the grad_fn of
+    one feature is the grad_fn of another (outputs of one multi-output op) or lies below it.  Then
+    the per-task sweeps of mtl_backward run through nodes the trunk sweep needs again, which
+    retain_graph=False does not allow (the side condition of C13)."""
+    if any(a != b and prog.reach(a, b) for a in feats for b in feats):
+        return True
+    ts = prog.build(torch.float64)
+    g = Graph(ts)
+    nodes = [g.gfn[f] for f in feats]
+    if len(set(nodes)) < len(nodes):
+        return True
+    for a in range(len(feats)):
+        seen, st = set(), [c for c in g.next[nodes[a]] if c is not None]
+        while st:
+            x = st.pop()
+            if x in seen:
+                continue
+            seen.add(x)
+            st.extend(c for c in g.next[x] if c is not None)
+        if any(nodes[b] in seen for b in range(len(feats)) if b != a):
+            return True
+    return False
+
+
 def gen_mtl(rng: random.Random, overlap=False, nested=None, bound=2 ** 20):
     """trunk (random program) -> 1..3 feature tensors -> 1..4 heads with 0..3 own parameters
     (parameters shared between tasks in ~30 %).  Returns (prog, features, losses, tasks, shared)
@@ -639,7 +664,7 @@ def gen_mtl(rng: random.Random, overlap=False, nested=None, bound=2 ** 20):
             continue
         nf = rng.choice([1, 1, 2, 3])
         feats = rng.sample(cand, min(nf, len(cand)))
-        is_nested = any(a != b and p.reach(a, b) for a in feats for b in feats)
+        is_nested = entangled(p, feats)
         if nested is not None and is_nested != nested:
             continue
         shared = [t for t in range(p.n()) if p.is_leaf[t] and p.req[t] and any(p.reach(f, t) for f in feats)]
